@@ -9,6 +9,7 @@ pub mod c03;
 pub mod c04;
 pub mod c05;
 pub mod c06;
+pub mod c07;
 pub mod c08;
 pub mod c10;
 pub mod tunnelreq;
@@ -56,6 +57,13 @@ pub static PROPS: &[PropDef] = &[
         level: "exploration",
         run: c03::run,
         replay: c03::replay,
+        workers: w16,
+    },
+    PropDef {
+        id: "C07",
+        level: "exploration",
+        run: c07::run,
+        replay: c07::replay,
         workers: w16,
     },
     PropDef {
